@@ -585,4 +585,20 @@ def run (s : St) : List Op → St
   | [] => s
   | op :: ops => run (step s op) ops
 
+/-! ## the layer2 mint / burn messages applied to a basket denomination (x/layer2/keeper/msg_server.go) -/
+
+/-- `MsgMintIssueTx` for a basket denomination: the tokens module registers basket denominations without owner and with
+fee rate 0, so for every sender the computed fee is 0 and the message is refused (`ErrNotAbleToMintCoinsWithoutFee`):
+nothing changes -/
+def l2Issue (_s : St) (_a : Acct) (_c : Coin) : Option St := none
+
+/-- `MsgMintBurnTx`: the sender's coins go to the layer2 module account and are burnt there - the holder's balance and
+the bank supply fall; the basket record (`amount`, reserves) is not touched -/
+def l2Burn (s : St) (a : Acct) (c : Coin) : Option St :=
+  if 0 < c.amount then
+    match s.bank.sub1 a c with
+    | none => none
+    | some b1 => some { s with bank := { b1 with supply := b1.supply.set c.denom (b1.supplyOf c.denom - c.amount) } }
+  else none
+
 end Sekai.Basket
